@@ -21,6 +21,11 @@ type c07KindT struct {
 	val    interface{} // Go value (for expr == "v", and as a helper's return value)
 	isVar  bool
 	truthy bool // from the property statement's list
+	// light: takes part in the matrix and in the random chains, not in the exhaustive kind-at-position streams
+	light bool
+	// noHelper: a value a helper cannot return as a value (an error as a helper's last result is the helper's
+	// failure, by the calling convention): matrix only, never the result of a chain's condition helper
+	noHelper bool
 }
 
 func c07Kinds() []c07KindT {
@@ -36,7 +41,7 @@ func c07Kinds() []c07KindT {
 	lit := func(name, expr string, truthy bool) c07KindT {
 		return c07KindT{name: name, expr: expr, truthy: truthy}
 	}
-	return []c07KindT{
+	return append([]c07KindT{
 		// falsy by the statement: nil, false, "", empty HTML, nil pointers, unknown identifiers
 		lit("nil", "nil", false),
 		lit("unknown-identifier", "nosuch", false),
@@ -81,7 +86,7 @@ func c07Kinds() []c07KindT {
 		v("ptr-str-empty", &e, true),
 		v("ptr-bool-false", &f, true),
 		v("func", func() int { return 0 }, true),
-	}
+	}, c07TypedKinds()...) // oracle_c07_types.go: kinds whose Go type carries methods / a wrapper shape
 }
 
 var c07AllKinds = c07Kinds()
@@ -400,8 +405,10 @@ func c07ParseChain(s string) (c07Chain, error) {
 			return c, fmt.Errorf("row length != number of forms")
 		}
 		for _, k := range ks {
-			if _, ok := c07Kind(k); !ok {
+			if kd, ok := c07Kind(k); !ok {
 				return c, fmt.Errorf("unknown kind %q", k)
+			} else if kd.noHelper {
+				return c, fmt.Errorf("kind %q cannot be a helper's result (matrix only)", k)
 			}
 		}
 		c.rows = append(c.rows, ks)
@@ -491,41 +498,57 @@ func c07EvalChain(c c07Chain) c07ChainObs {
 	n := len(c.forms)
 	r := c07ChainObs{tmpl: c.tmpl(), allBool: true}
 	kinds := c07KindMap
-	// expectation, from the statement
-	wantCalls := make([]int, n)
-	wantShared := map[string]int{}
-	wantMarks := map[string]int{}
-	outs := make([]string, len(c.rows))
-	for x, row := range c.rows {
-		for _, kn := range row {
-			r.allBool = r.allBool && strings.HasPrefix(kn, "bool-")
-		}
-		sel := -1
-		for i, kn := range row {
-			if kinds[kn].isVar {
-				switch op := c07Ops[c.op(i)]; {
-				case op.shared != "":
-					wantShared[op.shared]++
-				case !op.pure:
-					wantCalls[i]++
-				}
-			}
-			if kinds[kn].truthy != c07Forms[c.forms[i]].negate {
-				sel = i
+	// expectation, from the statement. A selected block that fails ends the render there (stop); should the
+	// library drop the block's error and go on (whether it may is not C07's subject) the remaining
+	// evaluations of the chain are held to the statement just the same (!stop).
+	var wantCalls []int
+	var wantShared, wantMarks map[string]int
+	var outs []string
+	wantErr := false // the selected block is one that fails
+	expectation := func(stop bool) {
+		wantCalls = make([]int, n)
+		wantShared = map[string]int{}
+		wantMarks = map[string]int{}
+		outs = make([]string, len(c.rows))
+		wantErr = false
+		for x, row := range c.rows {
+			if wantErr && stop {
 				break
 			}
-		}
-		if sel < 0 && c.hasElse {
-			sel = n
-		}
-		if sel >= 0 { // the block of branch sel (n: the else block) is rendered, and no other
-			b := c07Bodies[c.body(sel)]
-			outs[x] = b.out(c.marker(sel))
-			if b.marks {
-				wantMarks[c.marker(sel)]++
+			sel := -1
+			for i, kn := range row {
+				if kinds[kn].isVar {
+					switch op := c07Ops[c.op(i)]; {
+					case op.shared != "":
+						wantShared[op.shared]++
+					case !op.pure:
+						wantCalls[i]++
+					}
+				}
+				if kinds[kn].truthy != c07Forms[c.forms[i]].negate {
+					sel = i
+					break
+				}
+			}
+			if sel < 0 && c.hasElse {
+				sel = n
+			}
+			if sel >= 0 { // the block of branch sel (n: the else block) is rendered, and no other
+				b := c07Bodies[c.body(sel)]
+				outs[x] = b.out(c.marker(sel))
+				if b.marks {
+					wantMarks[c.marker(sel)]++
+				}
+				wantErr = wantErr || b.fails
 			}
 		}
 	}
+	for _, row := range c.rows {
+		for _, kn := range row {
+			r.allBool = r.allBool && strings.HasPrefix(kn, "bool-")
+		}
+	}
+	expectation(true)
 	want := c.wrap.expect(outs)
 
 	calls := make([]int, n)
@@ -562,6 +585,9 @@ func c07EvalChain(c c07Chain) c07ChainObs {
 		return r
 	}
 	got := append([]int(nil), calls...)
+	if wantErr && r.o.Kind() == "OK" {
+		expectation(false)
+	}
 	r.desc = fmt.Sprintf("%s: expected %q with condition calls %v; got %q, err=%v, calls %v", r.tmpl, want, wantCalls, r.o.Out, r.o.Err, got)
 	if !c.defaultOps() {
 		r.desc = fmt.Sprintf("%s: expected %q with condition calls %v and shared-helper calls %s; got %q, err=%v, calls %v and %s", r.tmpl, want, wantCalls, c07SharedText(wantShared), r.o.Out, r.o.Err, got, c07SharedText(shared))
@@ -569,16 +595,23 @@ func c07EvalChain(c c07Chain) c07ChainObs {
 	if !c.defaultBodies() {
 		r.desc += fmt.Sprintf("; blocks that call mark(): expected executions %s, got %s", c07MarksText(c, wantMarks), c07MarksText(c, marks))
 	}
+	if wantErr {
+		r.desc += "; the selected block fails after its mark (the rendered text is not compared)"
+	}
 	switch r.o.Kind() {
 	case "PANIC":
 		r.symptoms = []string{"panic"}
 		r.desc = r.tmpl + " panicked: " + r.o.Panic
 		return r
 	case "ERR":
-		r.symptoms = []string{"error"}
-		return r
+		if !wantErr {
+			r.symptoms = []string{"error"}
+			return r
+		}
 	}
-	if c.wrap.checkOut && r.o.Out != want {
+	// (a selected block that fails: only the counters and the marks are compared - whether and how the
+	// block's error surfaces is not C07's subject)
+	if c.wrap.checkOut && !wantErr && r.o.Out != want {
 		r.symptoms = append(r.symptoms, "wrong-branch")
 	}
 	later, earlier := false, false
@@ -893,6 +926,8 @@ func init() {
 		rep.Exhaustive = true
 		rep.Rule = fmt.Sprintf("(a) matrix: %d value kinds (context variable v, a literal, nil, an unset name) x %d contexts: the expression forms {v, (v), !v, !!v, v && true, v || false, true && v, false || v, v && v, v || v} ", len(c07AllKinds), len(c07Ctxs)) +
 			"each printed, as an if condition and as an else-if condition (printing v / (v) itself is no truth test); all must agree with each other and with the statement's falsy list. " +
+			"The kinds include values whose Go TYPE carries methods or a shape that mean something elsewhere (oracle_c07_types.go): structs / pointers / slices / maps / numbers with an Interface() method (the gobuffalo/nulls shape, value and pointer receivers, promoted through embedding, reflect.Value) wrapping nil / false / the empty string / empty HTML / a nil pointer, fmt.Stringer / HTMLer / error / json+text Marshaler / Iterator values that print as or yield nothing, values with IsZero / IsEmpty / IsNil / Len / Bool / IsValid methods answering the falsy-looking way, database/sql Null* wrappers, non-nil pointers to falsy things - all truthy - and nil pointers to every such type - falsy, without the method being called; more numeric zeros and empty collections. " +
+			"A core of them takes part in every kind-at-position stream, all of them (but error values, which a helper cannot return as a value) in the matrix and the random chains. " +
 			"(b) chains if / else if ... / else whose conditions are counting helpers c0(x), c1(x), ... or, for kinds that are not Go values (literals, nil, an unset name), the expression itself (no counter): " +
 			"exhaustively every truth assignment for 1..5 conditions (thorough: 1..7), with and without else, " +
 			"in 12 placements (top level with template-text and with return bodies, silent tag [counters only], inside for, user function, block helper, a branch of another if, and two compositions); " +
@@ -915,6 +950,9 @@ func init() {
 			"operand spellings a(x).F / a[x].F are written (a(x).F) as the left operand of && / ||: the parser rejects `a(x).F && true` (callee-chain parsing, not C07's subject)",
 			"spellings that read context data only (rvs[x].F<i>, vals[x][<i>]) carry no counter: the rendered branch only is checked",
 			"block contents: the return placements take return \"\" / return markS() only (what a function without a return yields is not C07's subject); whether an assignment in a block reaches an outer variable is not checked (scoping), only that the block ran",
+			"blocks that fail (xu, xm, xe: an unset name, a member of one, a helper's error, each after the block's mark): the chain has selected its block all the same - conditions up to it once, none later, no other block; the rendered text is not compared and whether / how the block's error surfaces is not checked (not C07's subject): if the render fails the expectation ends at the failing evaluation, if the error is dropped and rendering goes on the remaining evaluations are held to the statement too",
+			"values of named bool / string types (type B bool: B(false)) are not in the matrix: whether they are 'false' / 'the empty string' of the statement is left open",
+			"error values are tested as context variables only (matrix): a helper whose result is an error has failed, by the calling convention",
 		}
 		r := NewRng(cfg.Seed).Fork(7)
 		seen := map[string]bool{} // failures already reported (kind|site|case)
@@ -949,6 +987,9 @@ func init() {
 		}
 		var returnable, written []string
 		for _, k := range kinds {
+			if k.noHelper {
+				continue
+			}
 			if k.isVar {
 				returnable = append(returnable, k.name)
 			} else {
@@ -997,6 +1038,9 @@ func init() {
 		// kind at position: every kind (returned by the helper, or written as the condition) at position
 		// 0,1,2 of a 3-chain, the two other conditions taking every truth assignment
 		for _, k := range kinds {
+			if k.light || k.noHelper {
+				continue
+			}
 			for pos := 0; pos < 3; pos++ {
 				for bits := 0; bits < 4; bits++ {
 					mk := func(b int) []string {
